@@ -1112,7 +1112,14 @@ class Engine:
         """explore a subtree in a forked worker process if a token is free; fn() does the exploration"""
         if self.sem is None or not self.sem.acquire(False):
             return False
-        pid = os.fork()
+        if len(self.kids) >= 32:
+            self.reap()
+        try:
+            pid = os.fork()
+        except OSError:         # no process to be had right now: explore in this process
+            self.sem.release()
+            self.reap()
+            return False
         if pid:
             self.kids.append(pid)
             self.spawned += 1
@@ -1141,6 +1148,20 @@ class Engine:
         self.sem.release()
         self.wait_kids()
         os._exit(code)
+
+    def reap(self):
+        """collect the workers that have finished (so that they do not pile up as zombies)"""
+        alive = []
+        for pid in self.kids:
+            try:
+                p, st = os.waitpid(pid, os.WNOHANG)
+            except ChildProcessError:
+                continue
+            if p == 0:
+                alive.append(pid)
+            elif st != 0:
+                self.inconclusive.append({'kind': 'engine-error', 'msg': 'worker %d exited with status %d' % (pid, st)})
+        self.kids = alive
 
     def wait_kids(self):
         for pid in self.kids:
